@@ -203,3 +203,5 @@ end LP.Props.C06
 #print axioms LP.Props.C06.claim_stage_means_all_done
 #print axioms LP.Props.C06.claimPayment_gate
 #print axioms LP.Props.C06.claim_gate
+
+#print axioms LP.Props.C06.stage_lt_iff
